@@ -269,6 +269,23 @@ func c17Gen(r *Rand, now int) *c17Doc {
 			}
 		}
 	}
+	// a living person with the full name of a dead person recorded later in the file (the page key
+	// of the dead person is then the second candidate of getUniqueKey)
+	if r.Chance(1, 4) {
+		for i, p := range d.people {
+			if !p.living {
+				continue
+			}
+			for _, q := range d.people[i+1:] {
+				if !q.living {
+					p.given, p.surname = q.given, q.surname
+					p.role["namesake-of-dead"], q.role["namesake-of-living"] = true, true
+					break
+				}
+			}
+			break
+		}
+	}
 	nf := r.Range(1, 4)
 	for f := 0; f < nf; f++ {
 		fam := &c17Family{husb: -1, wife: -1}
@@ -604,11 +621,15 @@ func init() {
 			}
 
 			// (T) page assembly: the model predicts the skeleton of every visibility-dependent page
+			showPages := map[string]int{} // show-mode page name -> person (document order)
+			modePages := map[string]map[string]int{} // per visibility: page name -> person that owns it
 			{
 				if gdoc, err := gedcom.NewDocumentFromString(text); err == nil {
-					if abs, rank, err := c17Abstract(gdoc, sr.show, sr.groups[1]); err != nil {
+					if abs, rank, ranks, err := c17Abstract(gdoc, sr.show, sr.groups[1]); err != nil {
 						c.Oracle("", "the page abstraction could not be read", input(nil), err.Error(), "an abstraction")
 					} else {
+						showPages = rank
+						modePages = ranks
 						ob := ""
 						for _, g := range sr.groups {
 							ob += bit(g)
@@ -617,7 +638,7 @@ func init() {
 							vis  string
 							site *c17Site
 						}{{"show", sr.show}, {"placeholder", sr.ph}, {"hide", sr.hideA}} {
-							c.Tie(fmt.Sprintf("c17site %s %s %s", m.vis, ob, abs), c17SiteSkeleton(m.site, rank))
+							c.Tie(fmt.Sprintf("c17site %s %s %s", m.vis, ob, abs), c17SiteSkeleton(m.site, ranks[m.vis]))
 							c.Eval()
 							c.Count("site-skeleton/" + m.vis)
 						}
@@ -627,10 +648,10 @@ func init() {
 
 			// pages of living people in the show-mode site (targets that must not be linked / exist)
 			livingPages := map[string]int{}
-			for name := range sr.show.Files {
-				for _, p := range d.people {
-					if p.living && strings.Contains(name, strings.ToLower(p.given)) {
-						livingPages[name] = p.id
+			for name, i := range showPages {
+				if i < len(d.people) && d.people[i].living {
+					if _, ok := sr.show.Files[name]; ok {
+						livingPages[name] = i
 					}
 				}
 			}
@@ -668,6 +689,9 @@ func init() {
 					// links
 					for _, m := range c17Href.FindAllStringSubmatch(mode.site.Files[name], -1) {
 						target := m[1]
+						if _, reused := modePages[mode.vis][target]; reused {
+							continue // in this mode the name belongs to somebody who gets a page (a namesake)
+						}
 						if pid, ok := livingPages[target]; ok && mode.doc == d {
 							p := d.people[pid]
 							c.Oracle(fmt.Sprintf("C17-%s-link-to-living-on-%s", mode.vis, kind),
@@ -678,6 +702,9 @@ func init() {
 					}
 				}
 				for target, pid := range livingPages {
+					if _, reused := modePages[mode.vis][target]; reused {
+						continue
+					}
 					if _, ok := mode.site.Files[target]; ok && mode.doc == d {
 						c.Oracle(fmt.Sprintf("C17-%s-page-for-living", mode.vis), mode.vis+" mode: a page is generated for a living person",
 							input(map[string]interface{}{"living": mode.vis, "file": target, "person": d.people[pid].ptr()}), "file exists", "no page")
